@@ -35,4 +35,4 @@ Definition summary fixed n :=
 
 Time Eval vm_compute in summary false 2.
 Time Eval vm_compute in summary true 2.
-Time Eval vm_compute in summary true 3.
+(* [summary true 3] did not finish in 20 min with list membership; see README.md *)
